@@ -96,3 +96,16 @@ Print Assumptions C10_source_constants.
 Theorem C10_nonvacuous : nonvacuous_witness.
 Proof. exact nonvacuous_proof. Qed.
 Print Assumptions C10_nonvacuous.
+
+(* the default of an image question: a file name gets the images prefix once, an expression is left as it is (defect F103, repaired) *)
+Theorem C10_image_default : forall d,
+  image_default d true = d
+  /\ (d <> [] -> contains s_images d = false -> image_default d false = s_images ++ d)
+  /\ (contains s_images d = true -> image_default d false = d).
+Proof.
+  intro d. unfold image_default. repeat split.
+  - destruct (nonempty d); reflexivity.
+  - intros Hd Hc. destruct d; [congruence|]. cbn [nonempty negb andb]. rewrite Hc. reflexivity.
+  - intro Hc. destruct (nonempty d); cbn [negb andb]; [rewrite Hc|]; reflexivity.
+Qed.
+Print Assumptions C10_image_default.
